@@ -405,6 +405,9 @@ TAG = ' // @vf'
 
 
 class Gen:
+    def lose(self, f, what):
+        self.lost.setdefault(f.key, []).append(what)
+
     def __init__(self, src_root, contracts, items, impl_items, canary=False):
         self.src_root = src_root
         self.contracts = contracts
@@ -417,6 +420,8 @@ class Gen:
         self.used_items = set()
         self.used_impl_items = set()
         self.ext_bodies = []
+        self.lost = {}            # fn key -> [description of body annotations that could not be placed]
+        self.skip_body = set()    # fn keys whose body annotations are dropped (they no longer type-check)
 
     # -- one function -------------------------------------------------------------------------
     def splice_fn(self, text, b, f, c):
@@ -496,6 +501,9 @@ class Gen:
                 raise LostAnchor('body annotations on bodiless fn %s' % f.key)
             return edits
         lo, hi = f.body_open + 1, f.body_close
+        if f.key in self.skip_body and not c.external_body:
+            self.lose(f, 'body annotations dropped: they no longer type-check against the current body')
+            return edits
         if c.external_body:
             # D8: body is outside the image; dropped, recorded
             self.ext_bodies.append(f.key)
@@ -507,11 +515,13 @@ class Gen:
             loops = rs.find_loops(b, lo, hi)
             for k, spec in c.loops.items():
                 if k < 1 or k > len(loops):
-                    raise LostAnchor('loop %d of %s not found (%d loops)' % (k, f.key, len(loops)))
+                    self.lose(f, 'loop %d not found (%d loops)' % (k, len(loops)))
+                    continue
                 kwpos, kw, bo, bc = loops[k - 1]
                 if spec['binder']:
                     if kw != 'for':
-                        raise LostAnchor('binder on non-for loop %d of %s' % (k, f.key))
+                        self.lose(f, 'binder on non-for loop %d' % k)
+                        continue
                     mi = re.search(r'\bin\b', b[kwpos:bo])
                     p = kwpos + mi.end()
                     edits.append((p, p, ' %s:' % spec['binder']))
@@ -530,7 +540,8 @@ class Gen:
             cls = rs.find_closures(b, lo, hi)
             for k, spec in c.closures.items():
                 if k < 1 or k > len(cls):
-                    raise LostAnchor('closure %d of %s not found (%d closures)' % (k, f.key, len(cls)))
+                    self.lose(f, 'closure %d not found (%d closures)' % (k, len(cls)))
+                    continue
                 cl = cls[k - 1]
                 if spec['params'] is not None:
                     edits.append((cl['params'][0], cl['params'][1], spec['params']))
@@ -564,8 +575,11 @@ class Gen:
             for _ in range(occ):
                 idx = body_txt.find(anchor, start)
                 if idx < 0:
-                    raise LostAnchor('anchor "%s" (#%d) not found in %s' % (anchor, occ, f.key))
+                    break
                 start = idx + 1
+            if idx < 0:
+                self.lose(f, 'anchor "%s" (#%d) not found' % (anchor, occ))
+                continue
             if occ == 1 and body_txt.find(anchor, idx + 1) >= 0 and False:
                 pass
             apos = lo + idx
@@ -813,7 +827,7 @@ def read_contract_sources(vf_dir):
     return srcs
 
 
-def build_image(repo_src='/repo/src', vf_dir=HERE, canary=False, extra_sidecars=None):
+def build_image(repo_src='/repo/src', vf_dir=HERE, canary=False, extra_sidecars=None, skip_body=()):
     RULES_APPLIED.clear()
     import spec_table
     srcs = read_contract_sources(vf_dir)
@@ -822,6 +836,7 @@ def build_image(repo_src='/repo/src', vf_dir=HERE, canary=False, extra_sidecars=
         srcs += extra_sidecars
     contracts, items, impl_items = load_sidecars(srcs)
     g = Gen(repo_src, contracts, items, impl_items, canary=canary)
+    g.skip_body = set(skip_body)
     prelude = open(os.path.join(vf_dir, 'prelude.rs')).read()
     spec = open(os.path.join(vf_dir, 'speclib.rs')).read().replace('//@@GENERATED_SPEC_TABLE@@', spec_table.generated_spec())
     image, maps = g.generate(prelude, spec)
@@ -829,6 +844,7 @@ def build_image(repo_src='/repo/src', vf_dir=HERE, canary=False, extra_sidecars=
     maps['rules_applied'] = dict(RULES_APPLIED)
     maps['fn_index'] = g.fn_index
     maps['external_bodies'] = g.ext_bodies
+    maps['lost_anchors'] = g.lost
     maps['contracts'] = {k: {'src': c.src, 'external_body': c.external_body,
                              'n_requires': len(c.requires), 'n_ensures': len(c.ensures),
                              'safety': c.safety} for k, c in contracts.items()}
